@@ -121,6 +121,10 @@ func isScalarType(t types.Type) bool {
 
 func (x *Exec) zeroVal(t types.Type) Val {
 	o := x.o
+	if isTimeType(t) {
+		x.needInt("time.Time value")
+		return TimeVal{Zero: o.True(), Y: o.Int(1), M: o.Int(1), D: o.Int(1), UTCMid: o.True(), Ns: o.Int(0)}
+	}
 	if isErrorType(t) {
 		return ErrVal{Nil: o.True(), Is: map[string]*Term{}, As: map[string]*Term{}, Data: map[string]*Term{}}
 	}
@@ -181,6 +185,9 @@ func (x *Exec) zeroVal(t types.Type) Val {
 // freshVal: an unconstrained symbolic value of Go type t.
 func (x *Exec) freshVal(prefix string, t types.Type) Val {
 	o := x.o
+	if isTimeType(t) {
+		return x.freshTime(prefix)
+	}
 	if isErrorType(t) {
 		return x.freshErr(prefix)
 	}
@@ -314,7 +321,11 @@ func (x *Exec) cell(st *State, obj *Object) Val {
 		return v
 	}
 	if obj.Global != nil {
-		v, err := x.globalValue(x.w.ByPath[obj.Global.Pkg.Pkg.Path()], obj.Global.Name(), obj.T)
+		gpk := x.w.ByPath[obj.Global.Pkg.Pkg.Path()]
+		if gpk == nil {
+			return OpaqueVal{What: obj.Global.Pkg.Pkg.Name() + "." + obj.Global.Name()}
+		}
+		v, err := x.globalValue(gpk, obj.Global.Name(), obj.T)
 		if err != nil {
 			x.fail("%v", err)
 		}
@@ -556,6 +567,11 @@ func (x *Exec) valEq(st *State, a, b Val) *Term {
 			if av.Tag.IsConst() && av.Tag.IVal.Sign() == 0 {
 				return o.Eq(bv.Tag, o.Int(0))
 			}
+		}
+	case TimeVal:
+		bv, ok := b.(TimeVal)
+		if ok {
+			return o.And(o.Eq(av.Zero, bv.Zero), o.Eq(av.Y, bv.Y), o.Eq(av.M, bv.M), o.Eq(av.D, bv.D), o.Eq(av.UTCMid, bv.UTCMid), o.Eq(av.Ns, bv.Ns))
 		}
 	case FuncVal:
 		bv, ok := b.(FuncVal)
@@ -947,6 +963,9 @@ func (x *Exec) unop(st *State, t *ssa.UnOp) Val {
 		x.nilCheck(st, p, "load")
 		if p.Obj != nil && p.Obj.Global != nil {
 			gpk := x.w.ByPath[p.Obj.Global.Pkg.Pkg.Path()]
+			if gpk == nil {
+				return x.readPtr(st, p)
+			}
 			if mu, ok := gpk.Contracts.Guarded[p.Obj.Global.Name()]; ok {
 				held, _ := st.Ghost["held:"+gpk.Name+"."+mu].(*Term)
 				if held == nil {
